@@ -53,6 +53,8 @@ pub enum FnRes {
     Tagged,
     Echo,
     Fail(String),
+    /// fails with an error whose concrete type is reval::Error (InvalidType)
+    FailType,
 }
 
 tokio::task_local! {
@@ -134,6 +136,7 @@ impl UserFunction for ModelFn {
             FnRes::Tagged => Ok(Value::Vec(vec![params, Value::Int(ordinal as i128)])),
             FnRes::Echo => Ok(params),
             FnRes::Fail(m) => Err(anyhow::anyhow!("{}", m)),
+            FnRes::FailType => Err(reval::Error::InvalidType.into()),
         }
     }
     fn name(&self) -> &'static str {
@@ -157,6 +160,7 @@ pub fn modelfn_from_model(j: &J, log: Arc<Log>) -> Result<ModelFn, String> {
             script.push(match r["r"].as_str() {
                 Some("v") => FnRes::Val(from_model(&r["v"])?),
                 Some("fail") => FnRes::Fail(uncps(&r["msg"])?),
+                Some("failtype") => FnRes::FailType,
                 Some("counter") => FnRes::Counter,
                 Some("tagged") => FnRes::Tagged,
                 Some("echo") => FnRes::Echo,
